@@ -282,7 +282,11 @@ func traceString(fs []netsim.Frame, t0 time.Time) string {
 			out += fmt.Sprintf("  ... %d more\n", len(fs)-i)
 			break
 		}
-		out += fmt.Sprintf("  #%d +%v to=%x %s\n", f.Seq, f.T.Sub(t0).Round(100*time.Microsecond), []byte(f.Remote), f.Pkt.String())
+		ref := ""
+		if f.Refused {
+			ref = " [REFUSED by the link: transmit error returned to the stack]"
+		}
+		out += fmt.Sprintf("  #%d +%v to=%x %s%s\n", f.Seq, f.T.Sub(t0).Round(100*time.Microsecond), []byte(f.Remote), f.Pkt.String(), ref)
 	}
 	return out
 }
